@@ -78,8 +78,8 @@ CHECKS = {
         "require_ops": ["lax.to_strict", "lax.from_strict", "lax.roundtrip_strict", "lax.roundtrip_lax", "lax.compose", "lax.lax_compose", "lax.tensor_assign", "lax.append", "lax.singleton"],
     },
     "C11": {
-        "quick": {"gen": [G("MC_Lax", "MC_C11_quick.cfg"), G("MC_Lax", "MC_C11_twoq.cfg")], "drive": [D("lax", 3000)]},
-        "thorough": {"gen": [G("MC_Lax", "MC_C11_thorough.cfg"), G("MC_Lax", "MC_C11_two.cfg")], "drive": [D("lax", 50000)]},
+        "quick": {"gen": [G("MC_Lax", "MC_C11_quick.cfg"), G("MC_Lax", "MC_C11_twoq.cfg"), G("MC_Lax", "MC_C11_ids.cfg")], "drive": [D("lax", 3000)]},
+        "thorough": {"gen": [G("MC_Lax", "MC_C11_thorough.cfg"), G("MC_Lax", "MC_C11_two.cfg"), G("MC_Lax", "MC_C11_ids.cfg")], "drive": [D("lax", 50000)]},
         "require_ops": ["lax.new_node", "lax.new_edge", "lax.new_operation", "lax.add_edge_source", "lax.add_edge_target", "lax.unify", "lax.delete_nodes",
                         "lax.delete_edges", "lax.map_nodes", "lax.serde_roundtrip", "lax.h.delete_nodes_witness"],
     },
